@@ -24,7 +24,7 @@ Kinds == {"string", "integer", "number", "boolean", "arrint", "obj",
 \* field sit behind the typed decode, and a nullable field's null must pass them (nil guards)
 FieldOnly == {"sizedint", "arrmin", "strmin"}
 FieldCtx == {"req", "opt", "nested"}       \* positions that are struct fields (value validators apply)
-AddlKinds == {"string", "integer", "number", "boolean"}
+AddlKinds == {"string", "integer", "number", "boolean", "strdate", "strdt", "stripv4"}   \* string formats: the collected values stay strings
 \* "map": value of a property-less object with typed additionalProperties (a Go map); "maparr": element of an array
 \* that is such a value (map[string][]T)
 \* "bothdefs": the document carries `$defs` AND the legacy `definitions`, each with an entry N of a different type;
@@ -114,6 +114,8 @@ ImplAccepts(unit, d, D) ==
   IF unit.ctx = "addl" THEN
        IF v.t = "null" THEN TRUE
        ELSE IF unit.kind = "integer" /\ "AddlIntTruncates" \in D THEN v.t = "num"
+       \* a string format on collected values selects no dedicated Go type: the map holds strings (mapstructure)
+       ELSE IF Main(leaf) = "string" /\ "AddlValuesTypedOnly" \in D THEN v.t \in {"str", "fmt"}
        ELSE ImplValue(<<>>, leaf, v, D)
   ELSE /\ ImplValue(<<>>, leaf, v, D)
        /\ (unit.kind \in {"sizedint", "strmin"} => LeafOK(leaf, v, D))      \* numericValidator / stringValidator of the field
